@@ -147,6 +147,7 @@ class Rig:
         if tyme2 is not None and tyme2 != tyme:
             t = ["tymth-differs", t, self.quanta(tyme2)]
         self.ev("recur", d, t, o, a)
+        ri = len(self.log) - 1
         if o == "y":
             return ("y", a[0])
         if o == "r":
@@ -156,10 +157,14 @@ class Rig:
         if o == "k":
             raise KeyboardInterrupt()
         s = self.sched_obj(d)
-        if o == "e":
-            s.extend([self.objs[n] for n in a])
-        elif o == "m":
-            s.remove([self.objs[n] for n in a])
+        try:
+            if o == "e":
+                s.extend([self.objs[n] for n in a])
+            elif o == "m":
+                s.remove([self.objs[n] for n in a])
+        except BaseException:
+            self.log[ri]["exc"] = True
+            raise
         self.ev("members", self.sched_of[d], 0, "", [self.name_of(x) for x in s.doers])
         return ("y", 0)
 
@@ -172,6 +177,10 @@ class Rig:
     def enter_choice(self, d):
         sc = self.script[d]
         c = sc.pop(0) if sc else {"o": "ok", "a": []}
+        for e in reversed(self.log):          # remember the enter outcome on the enter event (extra key, not compared)
+            if e["k"] == "enter" and e["d"] == d:
+                e["eo"] = c["o"]
+                break
         return c["o"], (c["a"] if isinstance(c["a"], list) else [])
 
     def ytock(self, t, n):
@@ -318,7 +327,7 @@ class Rig:
     def run(self, mode="do"):
         phase = None
         try:
-            with core.watchdog(10.0):
+            with core.watchdog():
                 if mode == "do":
                     self.doist.do()
                 else:
@@ -460,6 +469,112 @@ def compare(cfg, beh, real):
     return out
 
 
+# ---- property-level oracles on the real run alone -----------------------------------------------------------
+# Consulted only when a property's projection of the real run differs from the model's.  They decide whether the real
+# run itself breaks THAT property (-> VIOLATION) or merely took a different but, for that property, legitimate course
+# (a change that belongs to another property: -> divergence, recorded in the evidence, no alarm).  An oracle answers
+# None when it cannot decide from the real run alone; the difference is then a violation (conservative).
+def sched_map(cfg):
+    m = {}
+    for s_, ks in cfg["kids"].items():
+        for k in ks:
+            m[k] = s_
+    for s_, seqs in cfg["ext"].items():
+        for seq in seqs:
+            for k in seq:
+                m.setdefault(k, s_)
+    return m
+
+
+def real_c01(cfg, beh, real):
+    """well-formed life-cycle of every doer, and the closing event says how the doer really ended"""
+    probs = []
+    per = {}
+    for e in real["log"] + real["late"]:
+        if e["k"] != "members":
+            per.setdefault(e["d"], []).append(e)
+    el = proj_life(norm_log(beh["log"]))
+    leaves_equal = all([e["k"] for e in evs] == el.get(d, []) for d, evs in per.items() if cfg["kind"].get(d) == "leaf")
+    for d, evs in sorted(per.items()):
+        kinds = [e["k"] for e in evs]
+        if not wellformed(kinds):
+            probs.append("life-cycle of %s not well formed: %s" % (d, kinds))
+            continue
+        if cfg["kind"].get(d) == "leaf":
+            recs = [e for e in evs if e["k"] == "recur"]
+            if recs:
+                o = recs[-1]["o"]
+                want = "clean" if o == "r" else ("abort" if o in ("x", "k") or recs[-1].get("exc") else "cease")
+            else:
+                eo = evs[0].get("eo", "ok")
+                want = "clean" if eo == "r" else ("abort" if eo == "x" else "cease")
+            if kinds[-2] != want:
+                probs.append("life-cycle of %s ends with %s but the doer %s" % (d, kinds[-2], {
+                    "clean": "finished by itself", "abort": "raised", "cease": "was still running"}[want]))
+        elif kinds != el.get(d, []) and leaves_equal:
+            probs.append("life-cycle of DoDoer %s: model %s, code %s (all leaves as in the model)" % (d, el.get(d), kinds))
+    return probs
+
+
+def real_c02(cfg, beh, real):
+    """-> (problems, known): nothing after do() returned, children before their DoDoer, every forced-close sweep of a
+    scheduler in reverse enter order (known finding: that scheduler was extended from inside a running doer before)"""
+    probs, known = [], []
+    if real["late"]:
+        probs.append("life-cycle events after do() returned/raised: %s" % real["late"][:4])
+    log, so = real["log"], sched_map(cfg)
+    pos = {e["d"]: i for i, e in enumerate(log) if e["k"] == "exit"}
+    for g, ks in cfg["kids"].items():
+        if g != "R" and g in pos:
+            for k in set(ks) | {x for x, s_ in so.items() if s_ == g}:
+                if k in pos and pos[k] > pos[g]:
+                    probs.append("child %s exits after its DoDoer %s" % (k, g))
+    entered, sweeps, extended = {}, {}, set()
+
+    def flush():
+        for s_, lst in sweeps.items():
+            for x, y in zip(lst, lst[1:]):
+                if entered.get(x, -1) < entered.get(y, -1):
+                    msg = "forced-close sweep of %s closes %s before %s although %s was entered later" % (s_, x, y, y)
+                    (known if s_ in extended else probs).append(msg)
+        sweeps.clear()
+    for i, e in enumerate(log):
+        if e["k"] == "enter":
+            entered.setdefault(e["d"], i)
+        if e["k"] in ("recur", "members", "abort", "clean"):
+            flush()
+            if e["k"] == "recur" and e["o"] == "e":
+                extended.add(so.get(e["d"]))
+        elif e["k"] == "cease":
+            sweeps.setdefault(so.get(e["d"]), []).append(e["d"])
+    flush()
+    return probs, known
+
+
+def real_c03(cfg, beh, real):
+    """the real (doer, tyme) recur sequence is the model's as far as the real run went (where a run stops is C05)"""
+    pe, pr = proj_recur(norm_log(beh["log"])), proj_recur(norm_log(real["log"]))
+    if pr == pe[:len(pr)]:
+        return []
+    i = next((i for i, (x, y) in enumerate(zip(pe, pr)) if x != y), min(len(pe), len(pr)))
+    return ["recur step %d: the cycle model gives %s, code %s" % (i, pe[i] if i < len(pe) else "(run over)", pr[i] if i < len(pr) else None)]
+
+
+def same_run(r1, r2):
+    """two real runs are observably the same (C30: do vs ado; C04 uses its own leaf projection)"""
+    out = []
+    l1, l2 = norm_log(r1["log"]), norm_log(r2["log"])
+    if l1 != l2:
+        i = next((i for i, (x, y) in enumerate(zip(l1, l2)) if x != y), min(len(l1), len(l2)))
+        out.append("event %d: %s vs %s" % (i, l1[i] if i < len(l1) else None, l2[i] if i < len(l2) else None))
+    for k in ("done", "ddone", "tyme", "phase", "doers"):
+        if r1[k] != r2[k]:
+            out.append("%s: %s vs %s" % (k, r1[k], r2[k]))
+    if bool(r1["late"]) != bool(r2["late"]):
+        out.append("late events: %s vs %s" % (r1["late"][:3], r2["late"][:3]))
+    return out
+
+
 def replay(cfg, beh, q=0.25, seed=0, mode="do", flavours=None):
     rig = Rig(cfg, beh["script"], q=q, rng=random.Random(seed), flavours=flavours)
     return rig.run(mode)
@@ -510,6 +625,18 @@ def parallel(fn, items, n=6):
         return list(ex.map(fn, items))
 
 
+def real_verdict(prop, cfg, beh, real):
+    """-> (problems | None, known): the property evaluated on the real run alone; None = no such oracle (C05, C06: the
+    property fixes the whole projection, every difference from the model is a violation)"""
+    if prop == "C01":
+        return real_c01(cfg, beh, real), []
+    if prop == "C02":
+        return real_c02(cfg, beh, real)
+    if prop == "C03":
+        return real_c03(cfg, beh, real), []
+    return None, []
+
+
 def check_replays(ctx, prop, cfg, behs, keys=None, scales=None, modes=("do",), label=""):
     """replay behaviours on the real code; report mismatches of this property's projection"""
     keys = keys or [prop]
@@ -517,9 +644,11 @@ def check_replays(ctx, prop, cfg, behs, keys=None, scales=None, modes=("do",), l
     gc.collect()
     gc.freeze()     # the behaviour lists are big: keep them out of the per-replay gc.collect()
     for i, b in enumerate(behs):
+        reals = {}
         for mode in modes:
             q = (scales or SCALES)[(i + ctx.seed) % len(scales or SCALES)]
             real = replay(cfg, b, q=q, seed=ctx.seed * 1000003 + i, mode=mode)
+            reals[mode] = real
             cmpd = compare(cfg, b, real)
             ctx.traces += 1
             n += 1
@@ -528,16 +657,34 @@ def check_replays(ctx, prop, cfg, behs, keys=None, scales=None, modes=("do",), l
                      {"config": label, "script": b["script"], "model_log_head": b["log"][:6], "phase": b["phase"]}
                      if i % 97 == 3 else None)
             bad = [m for k in keys for m in cmpd[k]]
-            if bad:
-                # the known finding: model itself predicts an out-of-order sweep caused by a mid-cycle extend
-                ctx.violation("%s [%s q=%s mode=%s]: %s" % (prop, label, q, mode, bad[0]),
-                              {"config": cfg, "behaviour": b, "real": real, "mismatches": bad, "q": q, "mode": mode})
+            case = {"config": cfg, "behaviour": b, "real": real, "mismatches": bad, "q": q, "mode": mode}
+            where = "%s [%s q=%s mode=%s]" % (prop, label, q, mode)
+            if real["phase"] == "escaped:Hang":
+                # the scheduler did not return: no property of a run can be said to hold on it
+                ctx.violation("%s: the real run did not return within %ss (model: %s)" % (where, core.WATCHDOG_S, b["phase"]), case)
+            elif prop == "C30":
+                if bad:
+                    ctx.divergence("%s: %s" % (where, bad[0]))      # both loops are compared with each other below
+            elif bad:
+                verdict, known = real_verdict(prop, cfg, b, real)
+                if verdict is None or verdict:
+                    ctx.violation("%s: %s%s" % (where, bad[0], "; on the real run alone: %s" % verdict[0] if verdict else ""), case)
+                elif known:
+                    ctx.violation("%s (run differs from the model): %s" % (where, known[0]), case, finding="C02-extend-midcycle")
+                else:
+                    ctx.divergence("%s: %s" % (where, bad[0]))
             elif prop == "C02" and isinstance(b.get("bad"), list) and b["bad"]:
                 if set(b["bad"]) <= set(b["ext"] if isinstance(b["ext"], list) else []):
                     ctx.violation("out-of-order sweep after mid-cycle extend (model and code agree)", b,
                                   finding="C02-extend-midcycle")
                 else:
                     ctx.violation("model predicts out-of-order sweep not explained by extend", b)
+        if prop == "C30" and len(reals) == 2:
+            diff = same_run(reals["do"], reals["ado"])
+            if diff:
+                ctx.violation("C30 [%s]: do() and asyncio.run(ado()) differ: %s" % (label, diff[0]),
+                              {"config": cfg, "behaviour": b, "real": reals["do"], "real_ado": reals["ado"], "mismatches": diff,
+                               "q": q, "mode": "both"})
     gc.unfreeze()
     return n
 
